@@ -28,6 +28,7 @@ func main() {
 	shapes := flag.String("shapes", "", "print the key shape of the given function specs (comma separated)")
 	width := flag.Int("w", 400, "truncate dump/gen lines to this width")
 	_ = width
+	seedTest := flag.String("seedtest", "", "development: run only the seeds of the given properties (comma separated, or 'all') and print their status")
 	frz := flag.String("freeze", "", "freeze a picks file into a JSON table (printed on stdout)")
 	guards := flag.String("guards", "", "list guards (line: text) of the given function specs, compact")
 	gen := flag.String("gen", "", "print FnSpec skeletons for the given function specs (comma separated); -calls filters effects")
@@ -65,6 +66,26 @@ func main() {
 	if *shapes != "" {
 		for _, spec := range strings.Split(*shapes, ",") {
 			fmt.Printf("%s = %s\n", spec, p.ShapeOfFunc(p.Func(spec)))
+		}
+		return
+	}
+	if *seedTest != "" {
+		for _, s := range seeds {
+			if *seedTest != "all" && !strings.Contains(","+*seedTest+",", ","+s.Prop+",") {
+				continue
+			}
+			base := violationKeys(runProp(p, s.Prop, "quick", false))
+			one := seeds[:0:0]
+			one = append(one, s)
+			saved := seeds
+			seeds = one
+			extra, _ := thoroughSeedsOnly(*repo, s.Prop, base)
+			seeds = saved
+			st := ""
+			for _, r := range extra["results"].([]seedResult) {
+				st = r.Status + " " + r.FiredBy
+			}
+			fmt.Printf("%s %-70s %s\n", s.Prop, s.Name, trunc(st))
 		}
 		return
 	}
@@ -152,7 +173,23 @@ func main() {
 	for _, id := range ids {
 		c := newCheck(p, id, *tier)
 		props[id](c)
+		var tfail []string
+		if *tier == "thorough" {
+			extra, fails := thorough(*repo, p, id, violationKeys(c))
+			for k, v := range extra {
+				c.Extra[k] = v
+			}
+			tfail = fails
+		}
 		r := c.Finish(seed, !*noEv)
+		if len(tfail) > 0 {
+			for _, f := range tfail {
+				fmt.Printf("CHECKER-FAILURE: property=%s thorough tier: %s\n", id, f)
+			}
+			if r == 0 {
+				r = 2
+			}
+		}
 		if r > rc {
 			if rc != 1 { // violation (1) dominates checker failure (2) only if no failure... keep max severity ordering: 1 stays 1
 				rc = r
